@@ -71,3 +71,151 @@ c11_slice!(c11_slice_len1, 1, 3);
 c11_slice!(c11_slice_len2, 2, 4);
 c11_slice!(c11_slice_len3, 3, 5);
 c11_slice!(c11_slice_len4, 4, 6);
+
+// ---------------------------------------------------------------------------
+// C01 / C02: wildcard selector (RFC 9535 2.3.2): all children, document order,
+// the nodes themselves (pointer identity), nothing for scalars / empty containers.
+proof!(c01_wildcard_arr, 6, {
+    let mut sc = Scratch::new();
+    let n: usize = kani::any();
+    kani::assume(n <= 3);
+    sc.elems[0] = Mini::Int(kani::any());
+    sc.elems[1] = Mini::Null;
+    sc.elems[2] = Mini::Bool(kani::any());
+    let doc = sc.arr(n);
+    let d = process_wildcard(root_ptr(&doc));
+    let mut got = [core::ptr::null::<Mini>(); 8];
+    let k = nodes_of(&d, &mut got);
+    assert!(k == n, "wildcard must select every element exactly once");
+    let mut i = 0;
+    while i < n {
+        assert!(core::ptr::eq(got[i], &sc.elems[i]), "wildcard must yield the elements themselves in index order");
+        i += 1;
+    }
+    kani::cover!(n == 0, "empty array");
+    kani::cover!(n == 3, "three elements");
+    forget(d);
+    forget(sc);
+});
+proof!(c01_wildcard_obj, 6, {
+    let mut sc = Scratch::new();
+    let n: usize = kani::any();
+    kani::assume(n <= 3);
+    sc.set(0, "b", Mini::Int(kani::any()));
+    sc.set(1, "a", Mini::Null);
+    sc.set(2, "c", Mini::Bool(kani::any()));
+    let doc = sc.obj(n);
+    let d = process_wildcard(root_ptr(&doc));
+    let mut got = [core::ptr::null::<Mini>(); 8];
+    let k = nodes_of(&d, &mut got);
+    assert!(k == n, "wildcard must select every member value exactly once");
+    let mut i = 0;
+    while i < n {
+        assert!(core::ptr::eq(got[i], &sc.o.vals[i]), "wildcard must yield the member values themselves in document order");
+        i += 1;
+    }
+    kani::cover!(n == 0, "empty object");
+    kani::cover!(n == 3, "three members");
+    forget(d);
+    forget(sc);
+});
+macro_rules! c01_scalar_doc {
+    ($name:ident, $doc:expr) => {
+        proof!($name, 6, {
+            let doc: Mini = $doc;
+            let (i, s, e, st) = (any_ijson(), any_opt_ijson(), any_opt_ijson(), any_opt_ijson());
+            let d1 = process_wildcard(root_ptr(&doc));
+            let d2 = process_index(root_ptr(&doc), &i);
+            let d3 = process_slice(root_ptr(&doc), &s, &e, &st);
+            let d4 = process_key(root_ptr(&doc), "a");
+            assert!(matches!(d1, Data::Nothing), "wildcard on a scalar must select nothing");
+            assert!(matches!(d2, Data::Nothing), "index on a non-array must select nothing");
+            assert!(matches!(d3, Data::Nothing), "slice on a non-array must select nothing");
+            assert!(matches!(d4, Data::Nothing), "name on a non-object must select nothing");
+            kani::cover!(true, "end reached");
+        });
+    };
+}
+c01_scalar_doc!(c01_selectors_on_int, Mini::Int(kani::any()));
+c01_scalar_doc!(c01_selectors_on_str, Mini::Str(leak_str(any_ascii(1))));
+c01_scalar_doc!(c01_selectors_on_null, Mini::Null);
+
+// index / slice on an object, name on an array
+proof!(c01_wrong_container, 6, {
+    let mut so = Scratch::new();
+    let mut sa = Scratch::new();
+    so.set(0, "0", Mini::Int(kani::any()));
+    so.set(1, "a", Mini::Null);
+    let o = so.obj(2);
+    sa.elems[0] = Mini::Int(kani::any());
+    sa.elems[1] = Mini::Null;
+    let a = sa.arr(2);
+    let (i, s, e, st) = (any_ijson(), any_opt_ijson(), any_opt_ijson(), any_opt_ijson());
+    let d2 = process_index(root_ptr(&o), &i);
+    let d3 = process_slice(root_ptr(&o), &s, &e, &st);
+    let d4 = process_key(root_ptr(&a), "0");
+    let d5 = process_key(root_ptr(&a), "a");
+    assert!(matches!(d2, Data::Nothing), "index on an object must select nothing");
+    assert!(matches!(d3, Data::Nothing), "slice on an object must select nothing");
+    assert!(matches!(d4, Data::Nothing), "name on an array must select nothing");
+    assert!(matches!(d5, Data::Nothing), "name on an array must select nothing");
+    kani::cover!(true, "end reached");
+    forget(so);
+    forget(sa);
+});
+
+// name selector (RFC 9535 2.3.1): the member with exactly that name, or nothing.
+// Object {"a": x, "b": y, "ab": z} with symbolic values; concrete names (a symbolic
+// name makes normalize_json_key's String building intractable - measured).
+macro_rules! c01_name {
+    ($name:ident, $key:expr, $exp:expr) => {
+        proof!($name, 8, {
+            let mut sc = Scratch::new();
+            sc.set(0, "a", Mini::Int(kani::any()));
+            sc.set(1, "b", Mini::Null);
+            sc.set(2, "ab", Mini::Bool(kani::any()));
+            let doc = sc.obj(3);
+            let d = process_key(root_ptr(&doc), $key);
+            let exp: Option<usize> = $exp;
+            match &d {
+                Data::Ref(p) => {
+                    assert!(exp.is_some(), "name selector selected a member although no member has that name");
+                    assert!(core::ptr::eq(p.inner, &sc.o.vals[exp.unwrap_or(0)]), "name selector selected the wrong member");
+                }
+                Data::Nothing => assert!(exp.is_none(), "name selector selected nothing although a member has that name"),
+                _ => assert!(false, "name selector must yield zero or one node"),
+            }
+            kani::cover!(true, "end reached");
+            forget(d);
+            forget(sc);
+        });
+    };
+}
+c01_name!(c01_name_a, "a", Some(0));
+c01_name!(c01_name_b, "b", Some(1));
+c01_name!(c01_name_ab, "ab", Some(2));
+c01_name!(c01_name_ba, "ba", None);
+c01_name!(c01_name_c, "c", None);
+c01_name!(c01_name_empty, "", None);
+
+// C13: the three spellings of a name hand the evaluator a, 'a', "a": same member.
+proof!(c13_name_spellings, 8, {
+    let mut sc = Scratch::new();
+    sc.set(0, "b", Mini::Int(kani::any()));
+    sc.set(1, "a", Mini::Null);
+    let doc = sc.obj(2);
+    let d1 = process_key(root_ptr(&doc), "a");
+    let d2 = process_key(root_ptr(&doc), "'a'");
+    let d3 = process_key(root_ptr(&doc), "\"a\"");
+    let ok = |d: &Data<Mini>| matches!(d, Data::Ref(p) if core::ptr::eq(p.inner, &sc.o.vals[1]));
+    assert!(ok(&d1), "shorthand name must select the member");
+    assert!(ok(&d2), "single-quoted name must select the same member");
+    assert!(ok(&d3), "double-quoted name must select the same member");
+    let d4 = process_key(root_ptr(&doc), "'c'");
+    assert!(matches!(d4, Data::Nothing), "absent quoted name must select nothing");
+    kani::cover!(true, "end reached");
+    forget(d1);
+    forget(d2);
+    forget(d3);
+    forget(sc);
+});
